@@ -109,6 +109,84 @@ func vh_C06_L3_transmission_count() {
 	vcover("end")
 }
 
+// C06.L3d: the same law when the retransmissions come from different mechanisms. Four
+// one-chunk messages, one per packet, on a stream with retransmission limit N in {1,2,3};
+// every transmission of the first is lost, the others arrive one by one and are
+// acknowledged at once, so the second transmission of the first is a fast retransmission
+// (three gap reports) or a RACK retransmission and the later ones come from T3: on the wire
+// at most N+1 times in total, then the peer is told to skip it and the other three are delivered.
+func vh_C06_L3_transmission_count_fast_retransmit() {
+	il := vPick(2) == 1
+	a, b := vPair(vAssocOpts{interleaving: il, pickTSN: true, mtu: 36})
+	a.useForwardTSN, a.useIForwardTSN = !il, il
+	b.useForwardTSN, b.useIForwardTSN = !il, il
+	s, err := a.OpenStream(1, PayloadTypeWebRTCBinary)
+	vassert(err == nil, "open stream")
+	limit := uint32(1 + vPick(3))
+	s.SetReliabilityParams(true, ReliabilityTypeRexmit, limit)
+	switch vPick(3) { // which mechanism notices the loss first
+	case 1:
+		a.rackReorderingSeen = true
+	case 2: // reordering was seen and RACK's reordering window is wide open: the classic three gap reports do it
+		a.rackReorderingSeen = true
+		a.rackReoWnd = time.Second
+	}
+	rackTimers := vPick(2) == 1
+	first := a.myNextTSN
+	for i := 0; i < 4; i++ {
+		_, werr := s.WriteSCTP([]byte{byte(i), 1}, PayloadTypeWebRTCBinary)
+		vassert(werr == nil, "write accepted")
+	}
+	onWire := 0
+	fwd := false
+	for round := 0; round < 7; round++ {
+		for _, raw := range vWriterWake(a) {
+			p := vDecode(raw)
+			lost := false
+			for _, c := range p.chunks {
+				switch x := c.(type) {
+				case *chunkPayloadData:
+					if x.tsn == first {
+						onWire++
+						lost = true
+					}
+				case *chunkForwardTSN, *chunkIForwardTSN:
+					fwd = true
+				}
+			}
+			if lost {
+				continue
+			}
+			vInbound(b, raw)
+			for _, back := range vWriterWake(b) { // out-of-order data is acknowledged at once
+				vInbound(a, back)
+			}
+		}
+		if vWriterPending(a) {
+			continue // the acknowledgements woke the writer (fast retransmission): it runs before any timer
+		}
+		vFireAck(b)
+		for _, back := range vWriterWake(b) {
+			vInbound(a, back)
+		}
+		if vWriterPending(a) {
+			continue
+		}
+		if rackTimers {
+			vFireRack(a)
+			vFirePTO(a)
+		}
+		if !vWriterPending(a) {
+			vFireRtx(a, a.t3RTX)
+		}
+	}
+	vassert(onWire >= 1 && onWire <= int(limit)+1, "a chunk is put on the wire at most N+1 times under retransmission limit N, whichever mechanism retransmits it")
+	vassert(fwd, "once the policy is exhausted the peer is told to skip the message")
+	vassert(a.inflightQueue.size() == 0, "everything else was delivered and acknowledged")
+	vobserve("onWire", uint64(onWire))
+	vcover("end")
+}
+
 // C06.L2: abandoned or acknowledged chunks are never selected for retransmission by a
 // T3 expiry, whatever their counters say.
 func vh_C06_L2_abandoned_never_resent() {
